@@ -984,7 +984,7 @@ def check_C11(ctx):
                     else:
                         rep.uncertified("C11.sort." + label, "%s: %s — not a comparison sort of whole words" % (short(path), why), pdb.where(key))
                     return
-            orders = weak_orderings(n) if (ctx.tier == "thorough" or n <= 5) else set_partition_orderings(n)
+            orders = weak_orderings(n)
             bad_in = bad_cp = bad_idem = 0
             ex_in = None
             # idempotence: substitute the sorted output back into the summary = fold twice
